@@ -676,6 +676,17 @@ temperature totals (units with an offset) are compared with the model only".into
             fit_case(ctx, &conv, &qs);
         } }
     }
+    // amounts around 2^31, 2^32 and u32::MAX, where the whole part of a fraction saturates: sums that cross the limit, in units shown as fractions and in metric ones
+    const HUGE: [f64; 12] = [2147483648.5, 2147483648.0, 4000000000.25, 500000000.5, 4294967294.5, 4294967295.0, 4294967295.5, 4294967296.0, 4294967296.5, 8589934592.25, 1e12, 4294967293.75];
+    for u in ["cup", "c", "lb", "oz", "tsp", "in", "g", "ml", "kg"] {
+        for (i, x) in HUGE.iter().enumerate() { for y in HUGE.iter().skip(i).chain([0.5, 1.0, 0.0].iter()) {
+            let qs: Vec<ScaledQuantity> = vec![Quantity::new(Value::Number(Number::Regular(*x)), Some(u.to_string())), Quantity::new(Value::Number(Number::Regular(*y)), Some(u.to_string()))];
+            ctx.count("group:amounts-near-u32-limit");
+            group_case(ctx, &conv, &qs, true);
+            fit_case(ctx, &conv, &qs);
+            if *y < 1.5 { fit_case(ctx, &conv, &qs[..1]); }
+        } }
+    }
     // ---- cookware amounts
     for _ in 0..(if ctx.thorough { 100_000 } else { 3000 }) {
         let vs: Vec<Value> = (0..rng.below(7)).map(|_| if rng.chance(1, 4) { Value::Text(rng.pick(&["big", "small", ""]).to_string()) } else { value(&mut rng) }).collect();
